@@ -257,6 +257,33 @@ func (c *ctx) entropy() {
 			return true
 		})
 	}
+	// resetMagicTokens: every comment equal to the token is collected and replaced (no early loop exit)
+	if fc, fd := c.findFunc(c.inter.PkgPath, "generator", "resetMagicTokens"); fd != nil {
+		early := ""
+		ast.Inspect(fd.Body, func(n ast.Node) bool {
+			switch v := n.(type) {
+			case *ast.BranchStmt:
+				early = v.Tok.String()
+			case *ast.ReturnStmt:
+				if fc.par.InLoop(v) != nil {
+					// allowed: `if err != nil { return err }`
+					okRet := false
+					for _, cd := range fc.par.Known(v, fd) {
+						if _, isNil := astx.EqNil(fc.pkg.TypesInfo, cd.E); isNil && !cd.Pos {
+							okRet = true
+						}
+					}
+					if !okRet {
+						early = "return"
+					}
+				}
+			}
+			return true
+		})
+		c.s.Check(early == "", "G2", "generator.resetMagicTokens|every token comment is replaced", c.pos(fd), "no break/continue/early return in the collection and replacement loops", "a loop of resetMagicTokens can stop early ("+early+"): a later random token comment survives into the output, which then differs on every run")
+	} else {
+		c.s.Unk("G2", "generator.resetMagicTokens", "", "not found")
+	}
 	// printMagic: returns a comment; only when sourceMapped
 	if fc, fd := c.findFunc(c.inter.PkgPath, "generator", "printMagic"); fd != nil {
 		good := false
